@@ -54,7 +54,8 @@ class Mapping:
             if "loop-order" in mapping.keys():
                 loop_orders = mapping["loop-order"]
 
-            if "partitioning" in mapping.keys():
+            if "partitioning" in mapping.keys(
+            ) and mapping["partitioning"] is not None:
                 partitioning = {}
                 for tensor, ranks in mapping["partitioning"].items():
                     partitioning[tensor] = {}
